@@ -31,6 +31,11 @@ const NULLV: i64 = -1073741824;
 const BAD: i64 = -999_000_000;
 const STRS: [&str; 5] = ["a", "b", "c", "d", "e"];
 
+/// "f64e": Float64 arrays whose values are the model values times 1e-20 -- pairwise distinct but closer to each other than
+/// f64::EPSILON (an encoder that decides "constant" or "equal run" with a tolerance is only visible on such data)
+const TINY: f64 = 1e-20;
+static F64_TINY: std::sync::atomic::AtomicBool = std::sync::atomic::AtomicBool::new(false);
+
 fn slot_valid(s: i64) -> bool {
     s >= 0
 }
@@ -51,6 +56,7 @@ fn build(ty: &str, slots: &[i64], off: usize, len: usize) -> ArrayRef {
         "i32" => Arc::new(Int32Array::new(back.iter().map(|v| *v as i32).collect::<Vec<i32>>().into(), nulls)),
         "i64" => Arc::new(Int64Array::new(back.clone().into(), nulls)),
         "f64" => Arc::new(Float64Array::new(back.iter().map(|v| *v as f64).collect::<Vec<f64>>().into(), nulls)),
+        "f64e" => Arc::new(Float64Array::new(back.iter().map(|v| *v as f64 * TINY).collect::<Vec<f64>>().into(), nulls)),
         "utf8" => {
             let dense = StringArray::from(back.iter().map(|v| STRS[*v as usize]).collect::<Vec<&str>>());
             let (offsets, values, _) = dense.into_parts();
@@ -80,6 +86,7 @@ fn codes(arr: &ArrayRef) -> Result<Vec<i64>, String> {
             DataType::Int64 => arr.as_any().downcast_ref::<Int64Array>().unwrap().value(i),
             DataType::Float64 => {
                 let x = arr.as_any().downcast_ref::<Float64Array>().unwrap().value(i);
+                let x = if F64_TINY.load(std::sync::atomic::Ordering::Relaxed) { (x / TINY).round() } else { x };
                 if x.is_finite() && x.fract() == 0.0 && x.abs() < 1e9 {
                     x as i64
                 } else {
@@ -178,7 +185,8 @@ fn eval_case(c: &Value, ty: &str) -> Vec<Eval> {
     let base = ivec(&c["base"]);
     let off = c["off"].as_u64().unwrap() as usize;
     let len = c["len"].as_u64().unwrap() as usize;
-    let numeric = matches!(ty, "i32" | "i64" | "f64");
+    let numeric = matches!(ty, "i32" | "i64" | "f64");     // f64e: no sum / add / multiply (products leave the scaled grid)
+    F64_TINY.store(ty == "f64e", std::sync::atomic::Ordering::Relaxed);
     let a = build(ty, &base, off, len);
     let mut out = Vec::new();
     match c["f"].as_str().unwrap() {
